@@ -16,6 +16,7 @@ import (
 	"github.com/renbou/grpcbridge/transcoding"
 	"github.com/renbou/grpcbridge/webbridge"
 	"google.golang.org/grpc/codes"
+	"google.golang.org/grpc/status"
 	"google.golang.org/protobuf/proto"
 	"google.golang.org/protobuf/reflect/protoreflect"
 	"google.golang.org/protobuf/types/dynamicpb"
@@ -450,3 +451,95 @@ func execWS(f []string) string {
 }
 
 var _ = io.EOF
+
+// ---- bind ---------------------------------------------------------------------------------------
+//
+//	bind <cs> <ss> <accept…> <content-type…>
+//	  => ok <request mime> <request binary> <response content-type> <response binary> <streams 0|1>
+//	   | err <grpc code> <HTTPStatus() override or 0>
+//
+// Calls the REAL StandardTranscoder.Bind directly (no bridge in front of it).
+func execBind(f []string) string {
+	if len(f) != 5 {
+		return "BADARITY"
+	}
+	cs, ss := f[1] == "1", f[2] == "1"
+	accept, ctype := hexList(f[3]), hexList(f[4])
+	route := newRoute(cs, ss, "*", "")
+	raw, err := http.NewRequest("POST", "http://c13.invalid/call", nil)
+	if err != nil {
+		return "REQERR"
+	}
+	if len(accept) > 0 {
+		raw.Header["Accept"] = accept
+	}
+	if len(ctype) > 0 {
+		raw.Header["Content-Type"] = ctype
+	}
+	reqtc, resptc, err := newTranscoder().Bind(transcoding.HTTPRequest{
+		Target: route.Target, Service: route.Service, Method: route.Method, Binding: route.Binding,
+		RawRequest: raw, PathParams: nil,
+	})
+	if err != nil {
+		override := 0
+		if h, ok := err.(interface{ HTTPStatus() int }); ok {
+			override = h.HTTPStatus()
+		}
+		return fmt.Sprintf("err %d %d", int(status.Code(err)), override)
+	}
+	reqMime, reqBin := reqtc.ContentType()
+	respCT, respBin := resptc.ContentType(newMsg("x"))
+	_, streams := resptc.(transcoding.ResponseStreamTranscoder)
+	return fmt.Sprintf("ok %s %s %s %s %s", common.HexS(reqMime), b01(reqBin), common.HexS(respCT), b01(respBin), b01(streams))
+}
+
+// ---- wsup ---------------------------------------------------------------------------------------
+//
+//	wsup <cs> <ss> <body> <accept…> <content-type…>  =>  <handshake status>
+//
+// The WebSocket handshake only: 101 when the bridge upgrades, otherwise the status of the refusal
+// written before the upgrade (the client drops the connection right after a successful upgrade).
+func execWSUp(f []string) string {
+	if len(f) != 6 {
+		return "BADARITY"
+	}
+	cs, ss, bodyExpected := f[1] == "1", f[2] == "1", f[3] == "1"
+	accept, ctype := hexList(f[4]), hexList(f[5])
+	sc := newScript()
+	sc.end = endSpec{kind: "hang"}
+	close(sc.barrier)
+	reqBody := ""
+	if bodyExpected {
+		reqBody = "*"
+	}
+	router := &fakeRouter{conn: &fakeConn{s: sc}, route: newRoute(cs, ss, reqBody, "")}
+	bridge := webbridge.NewTranscodedWebSocketBridge(router, webbridge.TranscodedWebSocketBridgeOpts{Transcoder: newTranscoder()})
+	returned := make(chan struct{})
+	srv := httptest.NewServer(http.HandlerFunc(func(w http.ResponseWriter, r *http.Request) {
+		defer close(returned)
+		bridge.ServeHTTP(w, r)
+	}))
+	defer srv.Close()
+	hdr := http.Header{}
+	if len(accept) > 0 {
+		hdr["Accept"] = accept
+	}
+	if len(ctype) > 0 {
+		hdr["Content-Type"] = ctype
+	}
+	dialer := websocket.Dialer{HandshakeTimeout: 5 * time.Second}
+	conn, hresp, err := dialer.Dial("ws"+strings.TrimPrefix(srv.URL, "http")+"/call", hdr)
+	st := 0
+	if hresp != nil {
+		st = hresp.StatusCode
+	}
+	if err == nil {
+		_ = conn.UnderlyingConn().Close()
+	}
+	select {
+	case <-returned:
+	case <-time.After(5 * time.Second):
+		return fmt.Sprintf("%d-noreturn", st)
+	}
+	return fmt.Sprintf("%d", st)
+}
